@@ -4,6 +4,6 @@
 cd "$(dirname "$0")/.."
 J="${1:-5}"
 ls seeded | xargs -P "$J" -I{} sh -c '
-  n={}; id=$(echo $n | cut -c1-3); [ "$n" = "F21-revert" ] && id=C15; [ "$n" = "F22-revert" ] && id=C08
+  n={}; id=$(echo $n | cut -c1-3); [ "$n" = "F21-revert" ] && id=C15; [ "$n" = "F22-revert" ] && id=C08; [ "$n" = "F23-revert" ] && id=C03
   out=$(MUTANT_LINES=400 tools/mutant.sh /verif/seeded/$n/patch.diff $id quick 2>&1)
   if echo "$out" | grep -q "^VIOLATION property=$id"; then echo "CAUGHT $n"; else echo "MISSED $n: $(echo "$out" | tail -1 | cut -c1-150)"; fi'
